@@ -7,9 +7,10 @@
 //
 // A *mutating event* is: fopen in a truncating/creating mode, a write to a tracked descriptor,
 // an unlink/remove of a tracked path.  c04_trace_begin(op) resets the per-operation counters; if
-// the environment says C04_CRASH_OP=<op index> and C04_CRASH_AT=<k>, the process _exit(77)s
-// immediately *before* the k-th (0-based) mutating event of that operation: every file-system
-// state a crash between two system calls can leave is reachable this way.
+// a crash point is armed (c04_arm(op, k), or the environment C04_CRASH_OP=<op index> and
+// C04_CRASH_AT=<k>), the process _exit(77)s immediately *before* the k-th (0-based) mutating
+// event of that operation: every file-system state a crash between two system calls can leave
+// is reachable this way.
 // c04_trace_end() returns "name:bytes_written:allzero,..." for the files removed during the
 // operation (sorted), i.e. what was written to each file between its last open and its removal.
 #undef _FILE_OFFSET_BITS   // both fopen and fopen64 are defined below: no asm renaming of one onto the other
@@ -172,6 +173,13 @@ int remove(const char* path) {
     int rc = r(path);
     in_hook = false;
     return rc;
+}
+
+// arm the crash point from inside the process (used by the forked child of `crashat`)
+void c04_arm(int op_index, long k) {
+    init_once();
+    crash_op = op_index;
+    crash_at = k;
 }
 
 void c04_trace_begin(int op_index) {
